@@ -1437,6 +1437,14 @@ func (t *TraefikOidc) RevokeToken(token string) {
 
 	// Add to blacklist with default expiration
 	expiry := time.Now().Add(24 * time.Hour) // or other appropriate duration
+	// A token that outlives the default duration stays revoked until it can no longer be accepted.
+	if claims, err := extractClaims(token); err == nil {
+		if expClaim, ok := claims["exp"].(float64); ok {
+			if tokenEnd := time.Unix(int64(expClaim), 0).Add(ClockSkewToleranceFuture); tokenEnd.After(expiry) {
+				expiry = tokenEnd
+			}
+		}
+	}
 	// Use Set with a duration. Value 'true' is arbitrary, we only care about existence.
 	t.tokenBlacklist.Set(token, true, time.Until(expiry))
 	t.logger.Debugf("Locally revoked token (added to blacklist)")
